@@ -41,3 +41,6 @@ def run(repo, res, tier):
     # values with units are read back with the decoder's own real class (no float/numbers.Real test that ignores real_cls)
     from .. import hookrules as _hk1b
     _hk1b.rule_h2(repo, res)
+    # dump to a stream, then load from where the label starts: the stream is re-read from the position it had
+    from .. import apirules as _ap1
+    _ap1.rule_f3(repo, res)
